@@ -1,7 +1,7 @@
 (** C14 — Bezier evaluate, derivative, split and conversions obey the Bernstein identities.
     Statements are in VekProofs.C14_spec; programs are regenerated from /repo by symx. *)
 From VekLib Require Import Ops ROps LinAlg RLin.
-From VekProofs Require Import C14_spec C14_pa C14_pb C14_pc.
+From VekProofs Require Import C14_spec C14_pa C14_pb C14_pc C14_fl.
 
 Theorem C14_evaluate : C14_evaluate_stmt.       Proof. exact C14_pa.C14_evaluate. Qed.
 Theorem C14_split : C14_split_stmt.             Proof. exact C14_pa.C14_split. Qed.
@@ -10,6 +10,8 @@ Theorem C14_elevation : C14_elevation_stmt.     Proof. exact C14_pb.C14_elevatio
 Theorem C14_matrix : C14_matrix_stmt.           Proof. exact C14_pb.C14_matrix. Qed.
 Theorem C14_matrix_mul : C14_matrix_mul_stmt.   Proof. exact C14_pb.C14_matrix_mul. Qed.
 Theorem C14_circle : C14_circle_stmt.           Proof. exact C14_pc.C14_circle. Qed.
+(** float clause of evaluation under the rounded interpretation of lib/FlOps.v *)
+Theorem C14_float_evaluate : C14_float_evaluate_stmt. Proof. exact C14_fl.C14_float_evaluate. Qed.
 
 Print Assumptions C14_evaluate.
 Print Assumptions C14_split.
@@ -18,3 +20,4 @@ Print Assumptions C14_elevation.
 Print Assumptions C14_matrix.
 Print Assumptions C14_matrix_mul.
 Print Assumptions C14_circle.
+Print Assumptions C14_float_evaluate.
